@@ -19,16 +19,16 @@ func (c07) Cases(c *Ctx) int { return c.Pick(500, 12000) }
 
 func (c07) Gen(dt *drv.T, c *Ctx) any {
 	cs := &CheckCase{}
-	if chance(dt, "longrun", 1) && drv.Bool().Draw(dt, "longrun2") && drv.Bool().Draw(dt, "longrun3") && (c.Thorough() || drv.Bool().Draw(dt, "longrun4")) {
-		// a long run: the first falsified test case comes after tens of thousands of test cases that have consumed
+	if chance(dt, "longrun", 1) && drv.Bool().Draw(dt, "longrun2") && drv.Bool().Draw(dt, "longrun3") && (c.Thorough() || (drv.Bool().Draw(dt, "longrun4") && drv.Bool().Draw(dt, "longrun5"))) {
+		// a long run: the first falsified test case comes after thousands of test cases that have consumed
 		// tens of millions of 64-bit words between them; its seed has to reproduce it all the same
-		m := pick(dt, "longmod", 40009, 60013, 90001)
+		m := pick(dt, "longmod", 6007, 9001, 14009)
 		cs.Prog = &Prog{Body: []*Stmt{
 			{Op: "draw", Label: "d1", Gen: &GenSpec{K: "int", IK: "Int", Mode: "range", SA: 0, SB: 1 << 30}},
-			{Op: "draw", Label: "big", Gen: &GenSpec{K: "slice", Min: 100, Max: 140, Sub: []*GenSpec{{K: "int", IK: "Uint64"}}}},
-			{Op: "if", Cond: &Cond{Draw: 0, Op: "mod", M: int64(m), C: int64(drv.IntRange(0, m-1).Draw(dt, "longres"))}, Body: []*Stmt{{Op: "sig", Kind: "Fatalf", Site: 1}}},
+			{Op: "draw", Label: "big", Gen: &GenSpec{K: "string", Min: 1200, Max: 1500, MaxLen: -1}},
+			{Op: "if", Cond: &Cond{Draw: 0, Op: "mod", M: int64(m), C: int64(m - 1 - drv.IntRange(0, 100).Draw(dt, "longres"))}, Body: []*Stmt{{Op: "sig", Kind: "Fatalf", Site: 1}}}, // a residue that small values (which the biased generators favour) do not have
 		}}
-		cs.Cfg = CheckCfg{Name: "TestC07", Checks: 500000, Seed: drv.Uint64Range(1, 1<<62).Draw(dt, "seed"), NoFailFile: true, ShrinkNS: 0}
+		cs.Cfg = CheckCfg{Name: "TestC07", Checks: 120000, Seed: drv.Uint64Range(1, 1<<62).Draw(dt, "seed"), NoFailFile: true, ShrinkNS: 0}
 		cs.Long = true
 		return cs
 	}
@@ -54,9 +54,9 @@ func (c07) Run(c *Ctx, csAny any) Outcome {
 	defer LeaveCaseDir(dir)
 	r1 := runProg(cs.Cfg, cs.Prog)
 	if cs.Long {
-		out.Classes = append(out.Classes, "long-run(tens-of-thousands-of-cases,tens-of-millions-of-words)")
-		if r1.FirstBad >= 30000 {
-			out.Classes = append(out.Classes, "long-run-first-failure-after-30000-cases")
+		out.Classes = append(out.Classes, "long-run(thousands-of-cases,tens-of-millions-of-words)")
+		if r1.FirstBad >= 6000 {
+			out.Classes = append(out.Classes, "long-run-first-failure-after-6000-cases(>2^24-words)")
 		}
 	}
 	if r1.Obs.Escaped != nil {
